@@ -3,7 +3,8 @@ import IdenaModel.Drivers.Util
 /-! Driver for channel C13state: canonical versioned store + one speculative view.
 ops: `new <keep>` | `cset k v` (canonical write; `v = -` deletes) | `commit` | `cget k` | `ver` |
 `has h` | `rget h k` (read-only view of version h) | `view h` (open a speculative view) |
-`vset k v` | `vget k` (on the open view) -/
+`vset k v` | `vget k` (on the open view) | `reset` (abandon the canonical working changes) |
+`citer` / `viter` (range iteration of the canonical working tree / of the open view, issued when nothing is pending) -/
 namespace IdenaModel.Drv.C13S
 open IdenaModel.Store IdenaModel.Drv
 
@@ -12,6 +13,8 @@ structure St where
   view : Option Overlay
 
 def init : St := { s := VStore.init 100, view := none }
+
+def showKV (m : KV) : String := "items " ++ ",".intercalate (m.map fun (k, v) => s!"{k}={v}")
 
 def showV (v : Option Val) : String := match v with | none => "val -" | some x => "val " ++ x
 
@@ -42,6 +45,11 @@ def step (st : St) (line : String) : St × String :=
   | ["vset", k, v] => match k.toNat?, st.view with
     | some k, some o => ({ st with view := some (o.step (if v = "-" then .del k else .set k v)).1 }, "ok")
     | _, _ => (st, "bad-op")
+  | ["reset"] => ({ st with s := st.s.reset }, "ok")
+  | ["citer"] => (st, showKV st.s.iter)
+  | ["viter"] => match st.view with
+    | some o => (st, showKV (o.iter false none none))
+    | none => (st, "bad-op")
   | ["vget", k] => match k.toNat?, st.view with
     | some k, some o => (st, showV (o.get k))
     | _, _ => (st, "bad-op")
